@@ -30,7 +30,11 @@ RULE_ADDED = (
               'Also: half of the verifications through adm_ledger / adm_sgx main(); forged and '
               'bit-flipped chains with extra / repeated targets; UD values and keys hashes that read '
               'on as text after the header; time zones and near-boundary root validity; a third of '
-              'the shards under python -O ')
+              'the shards under python -O '
+              ' '
+              'Round 8: the SGX root of trust delivered as a file, from a URL, or from the buil'
+              't-in default URL (stand-in web: same URL, another root in every case; non-200 an'
+              'swers). ')
 RULE = RULE + " " + RULE_ADDED.strip()
 ASSUMPTIONS = [
     "stdout of the commands is parsed by label ('UD value:', 'Hash:', ...)",
@@ -557,7 +561,7 @@ def run_case(acc, cseed, tmpdir):
 def run_shard(spec, acc):
     env.setup()
     rng = random.Random(spec["seed"])
-    tmpdir = tempfile.mkdtemp(prefix="pv-c08-")
+    tmpdir = env.mkdtemp("c08", spec.get("shard", spec.get("seed", 0)) % 2 == 1)
     try:
         for i in range(spec["n"]):
             run_case(acc, rng.getrandbits(48), tmpdir)
@@ -567,7 +571,7 @@ def run_shard(spec, acc):
 
 def replay(case, acc):
     env.setup()
-    tmpdir = tempfile.mkdtemp(prefix="pv-c08-")
+    tmpdir = env.mkdtemp("c08")
     try:
         run_case(acc, case["seed"], tmpdir)
     finally:
